@@ -60,3 +60,14 @@ reg('C18', 'static analysis: push/pop pairing of the process-scope context manag
     'over upward call chains from every uncontrolled call site that runs process code',
     'For every interleaving: which user code of a process can run without a "with _process_scope()" on its call chain is a call-graph fact. Assumes per-task '
     'copies of context variables.', NOTE)
+
+reg('C09', 'static analysis: CFG path rules on the outline interpreter (first-true-wins reachability in _IfStepper, predicate re-evaluation dominance in '
+    '_WhileStepper, continue-condition and branch placement in _do_step, step-by-one sequencing), handler discipline for return propagation, caller ownership '
+    'of predicate/step calls',
+    'Decides these clauses for every outline and valuation: no later predicate is evaluated after a true one, while_ re-evaluates before each iteration, '
+    'return_ cannot be swallowed below _do_step, a block advances by exactly one finished instruction, a non-None value stops the chain. It does NOT decide the '
+    'order of calls over all nested outlines (interpreter correctness).', NOTE)
+reg('C10', 'static analysis: must-facts for the barrier guard (wake-up control-dependent on the awaiting map being empty after the pop), CFG must-pass rules '
+    'for registration and context writes, exception-containment trace of an awaited failure',
+    'For every number of awaited items and completion order: the wake-up site is reachable only under "nothing awaited any more", registrations reach the WAITING '
+    'state, a failed awaitable becomes the EXCEPTED state. The unguarded future writes are C06\'s findings.', NOTE)
